@@ -135,11 +135,13 @@ impl<F: Read + Seek> BufRead for Stream<F> {
             && self.current_position() < self.total_len
         {
             self.flush_changes()?;
+            // Get hold of the compound file before moving the window: if it
+            // is gone, the stream's position must stay where it is.
+            let minialloc = self.minialloc()?;
             self.buf_offset_from_start += self.buffer.cursor() as u64;
             let remaining = self.total_len - self.buf_offset_from_start;
             let stream_id = self.stream_id;
             let offset = self.buf_offset_from_start;
-            let minialloc = self.minialloc()?;
             let result = self.buffer.refill_with(remaining, |buf| {
                 read_data_from_stream(
                     &mut minialloc.write().unwrap(),
